@@ -25,6 +25,8 @@ UNDO = Profile(new=6, edit_refresh=6, push=8, pop=8, float=3, sink=3, delete=3, 
                undo=14, redo=10, reset=6, gcommit=1.5, commit=1, invalid=1)
 REPAIR = Profile(new=8, edit_refresh=8, push=5, pop=6, delete=2, hide=2, repair=10, gcommit=8, gamend=4, greset=9,
                  gmerge=1, undo=1, commit=1, uncommit=1, inspect=1)
+COMMIT = Profile(new=10, edit_refresh=8, push=6, pop=6, commit=12, uncommit=10, float=3, sink=3, undo=3, redo=2,
+                 gcommit=3, delete=2, hide=2, goto=2, repair=1, invalid=1)
 BIG = Profile(new=30, edit_refresh=6, push=6, pop=10, hide=8, unhide=3, delete=2, float=3, sink=3, undo=3, redo=1,
               rename=2)
 
